@@ -128,8 +128,11 @@ def get_fuzzy_lex_sorting_index_map(input_array: Array, abs_tol: float, rel_tol:
         raise ValueError("Implementation only works for 2d arrays")
     idx_map = np.argsort(input_array[:, 0])
     sorted = input_array[idx_map]
+    equals = None
     for dim in range(1, input_array.shape[1]):
-        equals = get_adjacent_fuzzy_equal_indices(sorted[:, dim - 1], abs_tol=abs_tol, rel_tol=rel_tol)
+        # entries are only reordered w.r.t. this column among neighbors that are equal in ALL previous columns
+        equals_prev = get_adjacent_fuzzy_equal_indices(sorted[:, dim - 1], abs_tol=abs_tol, rel_tol=rel_tol)
+        equals = equals_prev if equals is None else np.logical_and(equals, equals_prev)
         for start, end in walk_adjacent_true_index_ranges(equals):
             indices = np.argsort(sorted[start:end][:, dim])
             idx_map[start:end] = idx_map[start:end][indices]
